@@ -1,13 +1,23 @@
 """Implementation driver for C15: the real run_scheduler_loop (optionally through taskiq.api.scheduler.run_scheduler_task)
 on an exact virtual-time loop, with scripted / removing / label based sources, a recording broker, and observation
 shims installed on module globals of taskiq.cli.scheduler.run (datetime, asyncio.sleep, delayed_send, get_task_delay).
-Nothing of /repo is re-implemented here."""
+Nothing of /repo is re-implemented here.
+
+A case may carry "host": the time zone of the machine the scheduler process runs on (a POSIX TZ string such as "MSK-3" /
+"IST-5:30" / "EST5EDT", or an IANA name resolved by the C library, ":name" = glibc's explicit file form; absent / None =
+"UTC", the harness environment).  It is installed with os.environ["TZ"] + time.tzset() before the real code is called, and
+the controlled clock answers exactly like the real datetime class on such a host: now(tz) / utcnow() report the instant,
+now() WITHOUT tz the naive local wall clock of the host zone (C library localtime()).  Everything the case SAYS is an instant
+(microseconds since the epoch, UTC): a naive one-shot time is that instant's UTC wall clock (taskiq's convention), whatever
+the host zone is - nothing the harness expects depends on the host zone."""
 import asyncio
 import collections
 import contextvars
 import datetime as dt
 import functools
+import os
 import sys
+import time
 import types
 
 import taskiq.api.scheduler as api
@@ -72,11 +82,37 @@ def now_us():
     return St.base + St.loop._vt_us
 
 
+HOST = [None]
+
+
+def set_host(host):
+    """make `host` the system time zone of this process (what TZ / /etc/localtime is on the scheduler machine)"""
+    host = host or "UTC"
+    if HOST[0] != host:
+        os.environ["TZ"] = host
+        time.tzset()
+        HOST[0] = host
+
+
+def td_us(d):
+    return (d.days * 86400 + d.seconds) * 10**6 + d.microseconds
+
+
+def host_off_us(us):
+    """UTC offset of the installed host zone at the instant `us` (C library) - for the evidence only"""
+    return td_us((EP + dt.timedelta(microseconds=us)).astimezone().utcoffset())
+
+
 class VDT(dt.datetime):
+    """datetime whose now() / utcnow() are the virtual clock, answered the way the real class answers them on the host:
+    now(tz) = the instant in tz, utcnow() = naive UTC, now() = naive wall clock of the SYSTEM zone (TZ / tzset)"""
+
     @classmethod
     def now(cls, tz=None):
         t = EP + dt.timedelta(microseconds=now_us())
-        return t.astimezone(tz) if tz is not None else t.replace(tzinfo=None)   # the child runs with TZ=UTC
+        if tz is not None:
+            return t.astimezone(tz)
+        return t.astimezone().replace(tzinfo=None)     # system local time: time.localtime(), honours tzset()
 
     @classmethod
     def utcnow(cls):
@@ -201,10 +237,13 @@ class SubDT(dt.datetime):
 
 
 def time_of(e):
-    """the one-shot's time as the case's payload shape gives it: naive UTC (default), aware at a fixed offset (`pay.tz`,
-    minutes), optionally as an instance of a datetime subclass (`pay.tcls`)"""
+    """the one-shot's time as the case's payload shape gives it: naive UTC (default), aware UTC (`naive` false), aware at a
+    fixed offset (`pay.tz`, minutes) or in the HOST's own zone as CPython reports it (`pay.tz` = "host": datetime.astimezone()
+    without argument, after set_host()), optionally as an instance of a datetime subclass (`pay.tcls`)"""
     p = e.get("pay") or {}
-    if p.get("tz") is not None:
+    if p.get("tz") == "host":
+        t = (EP + dt.timedelta(microseconds=e["T"])).astimezone()
+    elif p.get("tz") is not None:
         t = (EP + dt.timedelta(microseconds=e["T"])).astimezone(dt.timezone(dt.timedelta(minutes=p["tz"])))
     elif not e.get("naive", True):
         t = EP + dt.timedelta(microseconds=e["T"])
@@ -437,6 +476,7 @@ class Lab(Common, LabelScheduleSource):
 
 
 def run_case(case, opts):
+    set_host(case.get("host"))          # one scheduler process has one system zone
     loop = XLoop()
     asyncio.set_event_loop(loop)
     loop.set_exception_handler(lambda *_: None)      # a future nobody waited for is an observation, not noise
@@ -497,7 +537,11 @@ def run_case(case, opts):
             loop.run_until_complete(asyncio.gather(*pending, return_exceptions=True))
         asyncio.set_event_loop(None)
         loop.close()
-    return assemble(case, St.log, dead)
+    obs = assemble(case, St.log, dead)
+    if case.get("host"):   # evidence only: what the C library makes of the host zone at the start / the end of the run
+        obs["host"] = dict(zone=HOST[0], off_start_us=host_off_us(case["start"]), off_end_us=host_off_us(case["end"]),
+                           local_start=(EP + dt.timedelta(microseconds=case["start"])).astimezone().replace(tzinfo=None).isoformat())
+    return obs
 
 
 def assemble(case, log, dead):
